@@ -28,7 +28,7 @@ def run(chk):
     rng, thorough = chk.rng, chk.tier == "thorough"
     proof_ok = chk.proofs()
     jobs = []
-    fam = relay_family(rng, 240 if thorough else 64)
+    fam = relay_family(rng, 400 if thorough else 128)
     for k, rl in enumerate(fam):
         forced = k % 4 == 3
         cfg = W.random_config(rng, {"qtype": 65432, "downenc": "-", "autofrag": 1, "raw_mode": 0})
